@@ -32,12 +32,34 @@ def check_tiles(job):
         order = (first_planetary, not first_planetary) if k < half or len(positions) == 1 else (not first_planetary, first_planetary)
         for planetary in order:
             work.append((p, planetary))
-    for (n, x, y), planetary in work:
+    # a library tile filter (a pure query) that every tile is shown to before its pixel grid is asked for
+    from astropy.wcs import WCS
+    from toasty.samplers import WcsSampler
+
+    fw = WCS(naxis=2)
+    fw.wcs.ctype = ["RA---TAN", "DEC--TAN"]
+    fw.wcs.crval = [40.0, 10.0]
+    fw.wcs.cdelt = [-2.0, 2.0]
+    fw.wcs.crpix = [20.5, 20.5]
+    query = WcsSampler(np.ones((40, 40), dtype=np.float32), fw).filter()
+    for wk, ((n, x, y), planetary) in enumerate(work):
         csn = "planetary" if planetary else "astronomical"
         cs = cs_of(planetary)
         cfg = {"pos": (n, x, y), "coordsys": csn}
         part.case(nontrivial=True, n=1)
         t = toast.create_single_tile(Pos(n, x, y), coordsys=cs)
+        if wk % 3 == 1 and n <= 12:
+            # ... or the tile as the point lookup hands it out (looked up at the reference centre)
+            c0, inc0 = tg.single(n, x, y, planetary)
+            lon0, lat0 = tg.lonlat(tg.centre(c0[None, None], np.array([[inc0]]))[0, 0])
+            tp = toast.toast_tile_for_point(n, float(lat0), float(lon0), coordsys=cs)
+            if tuple(tp.pos) == (n, x, y):
+                t = tp
+                cfg["tile_from"] = "toast_tile_for_point"
+        try:
+            query(t)
+        except Exception as e:
+            bad("filter-query-raises:%s" % type(e).__name__, repr(e), cfg)
         # the tile is held while the other coordinate system is used (it must not be affected)
         toast.create_single_tile(Pos(n, x, y), coordsys=cs_of(not planetary))
         lon, lat = toast.toast_tile_get_coords(t)
@@ -48,20 +70,32 @@ def check_tiles(job):
         ref = tg.pixel_grid(n, x, y, planetary)
         d = tg.angdist(got, ref)
         part.count("pixels_compared", 65536)
-        if d.max() > 1e-9:
+        # judged relative to the pixel size (1e-3 of a pixel, never looser than 1e-9 rad) plus a few ulp
+        tol = min(1e-9, 1e-3 * (np.pi / 2) / 2**n / 256) + 4e-15
+        if d.max() > tol:
             i, j = np.unravel_index(np.argmax(d), d.shape)
             # classify: transposed? shifted?
             dt = tg.angdist(got, np.swapaxes(ref, 0, 1)).max()
-            clause = "grid/transposed" if dt <= 1e-9 else "grid/differs-from-deeper-tile-centres"
+            clause = "grid/transposed" if dt <= tol else "grid/differs-from-deeper-tile-centres"
             bad(clause, "pixel (row %d, col %d) is %.3g rad from the centre of tile (%d,%d,%d); increasing=%r" % (i, j, d.max(), n + 8, 256 * x + j, 256 * y + i, t.increasing), cfg)
             continue
         c, inc = tg.single(n, x, y, planetary)
-        inside = tg.contains_many(np.broadcast_to(c, (256, 256, 4, 3)), got, tol=1e-12)
+        inside = tg.contains_many(np.broadcast_to(c, (256, 256, 4, 3)), got, tol=min(1e-12, tol))
         if not inside.all():
             bad("grid/pixel-outside-tile", "%d pixel centres lie outside the tile" % int((~inside).sum()), cfg)
         clat = np.array([float(q[1]) for q in t.corners])
         if lat.min() < clat.min() - 1e-12 or lat.max() > clat.max() + 1e-12:
             bad("grid/latitude-range", "pixel latitudes [%.6f, %.6f] outside corner range [%.6f, %.6f]" % (lat.min(), lat.max(), clat.min(), clat.max()), cfg)
+        if not python_route:
+            # a few pixels against the tiles toasty itself constructs eight levels deeper (single-tile route)
+            for (i, j) in ((0, 0), (0, 255), (255, 0), (255, 255), (127, 128), (10, 200)):
+                tt = toast.create_single_tile(Pos(n + 8, 256 * x + j, 256 * y + i), coordsys=cs)
+                v = tvec(tt)
+                cen = tg.mid(v[3], v[1]) if tt.increasing else tg.mid(v[0], v[2])
+                part.count("python_route_tiles")
+                if tg.angdist(cen, got[i, j]) > tol:
+                    bad("python-route/deeper-tile-centre-differs", "pixel (row %d, col %d) is %.3g rad (%.3g pixel widths) from the centre of the tile (%d,%d,%d) that create_single_tile builds" % (i, j, tg.angdist(cen, got[i, j]), tg.angdist(cen, got[i, j]) / ((np.pi / 2) / 2**n / 256), n + 8, 256 * x + j, 256 * y + i), cfg)
+                    break
         if python_route:
             # the Python-side subdivision (_div4 via the public generator), eight levels down
             anc = lambda tt: True
@@ -221,7 +255,7 @@ def run(tier, seed):
     d = 2 if tier == "quick" else 4
     nlat = 10 if tier == "quick" else 12
     rep.rule = (
-        "all 65536 pixels of every tile at depths 1..%d and of a deep lattice to depth %d, both coordinate systems (hence both diagonal orientations), "
+        "all 65536 pixels of every tile at depths 1..%d, of a deep lattice to depth %d and of pole-, seam- and equator-touching tiles to depth 26 (28), to 1e-3 of a pixel; both coordinate systems (hence both diagonal orientations), "
         "against reference centres of the tiles 8 levels deeper; Python-route descent for depth <= %d; every tile is non-trivial"
         % (d, nlat, 1 if tier == "quick" else 2)
     )
@@ -229,6 +263,11 @@ def run(tier, seed):
     jobs = []
     allp = [(n, x, y) for n in range(1, d + 1) for y in range(2**n) for x in range(2**n)]
     lat = [p for p in lattice(nlat) if p[0] > d]
+    # far deeper: the tiles touching the poles and the seam corners (where special-casing of poles would sit)
+    for n in ((16, 20, 23, 26) if tier == "quick" else (14, 16, 18, 20, 22, 24, 26, 28)):
+        side = 2**n
+        for (x, y) in [(side // 2 - 1, side // 2 - 1), (side // 2, side // 2), (side // 2 - 1, side // 2), (0, 0), (side - 1, 0), (side - 1, side - 1), (side // 2, 0), (0, side // 2 - 1), (side // 3, side // 5)]:
+            lat.append((n, x, y))
     pr = [(1, x, y) for y in range(2) for x in range(2)]
     if tier == "thorough":
         pr += [(2, x, y) for y in range(4) for x in range(4)]
